@@ -145,5 +145,5 @@ package connectconformance
 // unexpected failure; it touches the results object only under r.mu.
 //@ func (*testResults).fetchTrace$1
 //@   requires wfResults(r) && r.tracer != nil
-//@   modifies held, map[string]*tracer.traceResult, map[string]*tracer.Trace, testResults.traces
+//@   modifies held, selWait, map[string]*tracer.traceResult, map[string]*tracer.Trace, testResults.traces
 //@   ensures @cleared !has(r.tracer.traces, testCase)
